@@ -1603,9 +1603,15 @@ impl<'a> Visitor<'a, '_, Error> for JSONValidator<'a> {
       ControlOperator::LT | ControlOperator::GT | ControlOperator::GE | ControlOperator::LE => {
         match target {
           Type2::Typename { ident, .. } if is_ident_numeric_data_type(self.state.cddl, ident) => {
-            self.state.ctrl = Some(ctrl);
-            self.visit_type2(controller)?;
-            self.state.ctrl = None;
+            // the value must belong to the target type before it is compared
+            // (`float .ge 1.5` must not accept the integer 2)
+            let error_count = self.errors.len();
+            self.visit_type2(target)?;
+            if self.errors.len() == error_count {
+              self.state.ctrl = Some(ctrl);
+              self.visit_type2(controller)?;
+              self.state.ctrl = None;
+            }
           }
           _ => {
             self.add_error(format!(
